@@ -587,3 +587,128 @@ Proof.
   inversion Hg; subst. rewrite (step_key_present (bw b) en b); auto; [|apply Hall; now left].
   apply IH; [assumption|]. intros x Hx. apply Hall. now right.
 Qed.
+
+(* ---------------------------------------------------------------- the loader keeps the invariant *)
+
+Lemma sane_canonical k : sane (canonical k).
+Proof.
+  unfold sane, canonical. rewrite <- map_rev. unfold fqdn. destruct (is_fqdn k) eqn:E.
+  - unfold is_fqdn in E. destruct (rev k) as [|c r]; [discriminate|]. apply andb_true_iff in E as [E _].
+    apply N.eqb_eq in E. subst. cbn. discriminate.
+  - rewrite rev_app_distr. cbn. discriminate.
+Qed.
+
+Lemma parse_names_keeps_good names b : mem_good b -> mem_good (parse_names names b).
+Proof.
+  revert b; induction names as [|n r IH]; intros b Hg; [exact Hg|]. cbn [parse_names].
+  destruct (has_prefix comment_str n); [exact Hg|]. apply IH.
+  destruct (bl_exists b (canonical n)); [exact Hg|]. apply set_locked_keeps_good; [apply sane_canonical|exact Hg].
+Qed.
+
+Lemma parse_line_keeps_good l b : mem_good b -> mem_good (parse_line l b).
+Proof.
+  intros Hg. unfold parse_line. destruct (is_nil (trim l) || has_prefix comment_str (trim l)); [exact Hg|].
+  destruct (cut_at comment_char (trim l)) as [dom found].
+  destruct (fields (if found then trim dom else trim l)) as [|f [|g r]]; [exact Hg| |]; now apply parse_names_keeps_good.
+Qed.
+
+Lemma parse_bytes_keeps_good f b : mem_good b -> mem_good (parse_bytes f b).
+Proof.
+  unfold parse_bytes. revert b. induction (split_lines f) as [|l ls IH]; intros b Hg; [exact Hg|].
+  cbn [fold_left]. apply IH. now apply parse_line_keeps_good.
+Qed.
+
+(* loadInitial: whatever the files contain, the memory it builds satisfies the invariant
+   (configured entries must not end in a lone backslash) *)
+Lemma load_initial_good wl bl files : Forall sane bl -> mem_good (load_initial wl bl files).
+Proof.
+  intros Hs. unfold load_initial.
+  assert (Hset : forall l b, Forall sane l -> mem_good b -> mem_good (fold_left (fun b e => snd (set_locked e b)) l b)).
+  { induction l as [|e l IH]; intros b Hl Hb; [exact Hb|]. inversion Hl; subst. cbn [fold_left].
+    apply IH; [assumption|]. now apply set_locked_keeps_good. }
+  assert (Hfiles : forall fs b, mem_good b -> mem_good (fold_left (fun b f => parse_bytes f b) fs b)).
+  { induction fs as [|f fs IH]; intros b Hb; [exact Hb|]. cbn [fold_left]. apply IH. now apply parse_bytes_keeps_good. }
+  apply Hfiles, Hset; [exact Hs|constructor].
+Qed.
+
+Lemma load_initial_w wl bl files : bw (load_initial wl bl files) = fold_left (fun w e => add (canonical e) w) wl [].
+Proof.
+  assert (Hs : forall k b, bw (snd (set_locked k b)) = bw b).
+  { intros k b0. unfold set_locked. destruct (match_hierarchy _ _); [reflexivity|].
+    destruct (negb _); [reflexivity|]. now destruct (has_prefix _ _). }
+  assert (Hn : forall names b, bw (parse_names names b) = bw b).
+  { induction names as [|n r IH]; intros b; [reflexivity|]. cbn [parse_names]. destruct (has_prefix comment_str n); [reflexivity|].
+    rewrite IH. destruct (bl_exists b (canonical n)); [reflexivity|apply Hs]. }
+  assert (Hl : forall l b, bw (parse_line l b) = bw b).
+  { intros l b. unfold parse_line. destruct (_ || _); [reflexivity|]. destruct (cut_at _ _) as [dom found].
+    destruct (fields _) as [|f [|g r]]; [reflexivity| |]; apply Hn. }
+  assert (Hb : forall f b, bw (parse_bytes f b) = bw b).
+  { intros f b. unfold parse_bytes. revert b. induction (split_lines f) as [|l ls IH]; intros b; [reflexivity|].
+    cbn [fold_left]. now rewrite IH, Hl. }
+  unfold load_initial. set (w := fold_left _ wl []).
+  assert (H1 : forall bl b, bw (fold_left (fun b e => snd (set_locked e b)) bl b) = bw b).
+  { intros l. induction l as [|e r IH]; intros b; [reflexivity|]. cbn [fold_left]. now rewrite IH, Hs. }
+  assert (H2 : forall fs b, bw (fold_left (fun b f => parse_bytes f b) fs b) = bw b).
+  { induction fs as [|f r IH]; intros b; [reflexivity|]. cbn [fold_left]. now rewrite IH, Hb. }
+  now rewrite H2, H1.
+Qed.
+
+(* the lone-backslash hypothesis is needed: "x\" is stored as "x\." (dns.Fqdn appends a
+   dot that IsFqdn then takes for escaped), written as such, and read back as "x\..":
+   the reloaded list no longer answers Exists("x\").  "x\" is not a domain name
+   (dangling escape), which is why this is an assumption and not a finding. *)
+Lemma sane_needed_example :
+  let k := [120; 92] in
+  ~ sane k /\
+  bm (snd (set_locked k (mk_bl [] [] []))) = [[120; 92; 46]] /\
+  bm (reload [[120; 92; 46]] []) = [[120; 92; 46; 46]] /\
+  bl_exists (mk_bl [[120; 92; 46]] [] []) k = true /\
+  bl_exists (reload [[120; 92; 46]] []) k = false.
+Proof. vm_compute. repeat split; try reflexivity. intros H. now apply H. Qed.
+
+(* ---------------------------------------------------------------- parsing only ever adds *)
+
+Definition grows (b b' : bl) : Prop := incl (bm b) (bm b') /\ incl (bwild b) (bwild b') /\ bw b = bw b'.
+Lemma grows_refl b : grows b b.
+Proof. repeat split; apply incl_refl. Qed.
+Lemma grows_trans a b c : grows a b -> grows b c -> grows a c.
+Proof. intros (A1 & A2 & A3) (B1 & B2 & B3). repeat split; [eapply incl_tran; eauto|eapply incl_tran; eauto|congruence]. Qed.
+
+Lemma incl_add k l : incl l (add k l).
+Proof. intros x Hx. apply In_add. now left. Qed.
+
+Lemma set_locked_grows k b : grows b (snd (set_locked k b)).
+Proof.
+  unfold set_locked. destruct (match_hierarchy _ _); [apply grows_refl|].
+  destruct (negb _); [apply grows_refl|]. destruct (has_prefix _ _); cbn [snd]; repeat split; cbn;
+    try apply incl_refl; apply incl_add.
+Qed.
+Lemma parse_names_grows names b : grows b (parse_names names b).
+Proof.
+  revert b; induction names as [|n r IH]; intros b; [apply grows_refl|]. cbn [parse_names].
+  destruct (has_prefix comment_str n); [apply grows_refl|]. eapply grows_trans; [|apply IH].
+  destruct (bl_exists b (canonical n)); [apply grows_refl|apply set_locked_grows].
+Qed.
+Lemma parse_line_grows l b : grows b (parse_line l b).
+Proof.
+  unfold parse_line. destruct (_ || _); [apply grows_refl|]. destruct (cut_at _ _) as [dom found].
+  destruct (fields _) as [|f [|g r]]; [apply grows_refl| |]; apply parse_names_grows.
+Qed.
+Lemma parse_bytes_grows f b : grows b (parse_bytes f b).
+Proof.
+  unfold parse_bytes. revert b. induction (split_lines f) as [|l ls IH]; intros b; [apply grows_refl|].
+  cbn [fold_left]. eapply grows_trans; [apply parse_line_grows|apply IH].
+Qed.
+Lemma parse_files_grows fs b : grows b (fold_left (fun b f => parse_bytes f b) fs b).
+Proof.
+  revert b; induction fs as [|f fs IH]; intros b; [apply grows_refl|]. cbn [fold_left].
+  eapply grows_trans; [apply parse_bytes_grows|apply IH].
+Qed.
+
+(* what a list blocks, a bigger list with the same whitelist blocks *)
+Lemma grows_blocks b b' q : grows b b' -> bl_exists b q = true -> bl_exists b' q = true.
+Proof.
+  intros (H1 & H2 & H3). rewrite !bl_exists_alt, <- H3. intros H. apply andb_true_iff in H as [Hw Hb].
+  rewrite Hw. cbn [andb]. apply blocked_walk_iff in Hb. apply blocked_walk_iff.
+  destruct Hb as [(e & He & H)|(s & Hs & H)]; [left; exists e|right; exists s]; auto.
+Qed.
